@@ -155,6 +155,18 @@ def apply_rewrites(reply, rewrites, ctx):
                 for nm in ("error-status", "error-index"):
                     _set_int(tree, nm, 0 if spec != snmp.PDU_GETBULK or nm == "error-status" else 10)
                 label["varbinds"] = [[o, ["null"]] for o, _ in label.get("varbinds", [])]
+        elif field == "widths":
+            # legal but non-minimal: long-form lengths (k length octets) on the named elements.
+            # The message stays well-formed BER: nothing about its acceptance changes.
+            for nm, w in spec.items():
+                if nm == "encrypted":
+                    if sec is not None:
+                        sec["enc_width"] = w
+                    continue
+                for _, n in tree.walk():
+                    if n.name == nm and n.raw is None:
+                        n.width = w
+            label["widths"] = dict(spec)
         elif field == "error-status":
             if _set_int(tree, "error-status", spec):
                 label["error_status"] = spec
